@@ -130,6 +130,15 @@ Definition zrange (n : Z) : list Z := map Z.of_nat (seq 0 (Z.to_nat n)).
 Definition for_range {S R} (n : Z) (body : Z -> S -> ctl S R) (s : S) : ctl S R :=
   for_list body (zrange n) s.
 
+(* range(lo, hi) and range(hi, lo, -1) *)
+Definition zrange2 (lo hi : Z) : list Z := map (fun k => lo + Z.of_nat k) (seq 0 (Z.to_nat (hi - lo))).
+Definition zrange_down (hi lo : Z) : list Z := map (fun k => hi - Z.of_nat k) (seq 0 (Z.to_nat (hi - lo))).
+Definition for_range2 {S R} (lo hi : Z) (body : Z -> S -> ctl S R) (s : S) : ctl S R := for_list body (zrange2 lo hi) s.
+Definition for_range_down {S R} (hi lo : Z) (body : Z -> S -> ctl S R) (s : S) : ctl S R := for_list body (zrange_down hi lo) s.
+
+(* [v] * n *)
+Definition py_repeat {A} (v : A) (n : Z) : list A := repeat v (Z.to_nat n).
+
 (* while cond(s): s = body(s)   — cond and body may raise / return *)
 Fixpoint while_fuel {S R} (fuel : nat) (cond : S -> bool) (body : S -> ctl S R) (s : S) : ctl S R :=
   if cond s then
